@@ -1,8 +1,8 @@
-(* Property C17: probabilistic quantum memory - Hamming-distance cosine law (classical pattern variant proved;
-   the quantum-pattern variant is modelled, corresponded and evaluated). *)
+(* Property C17: probabilistic quantum memory - Hamming-distance cosine law, for the classical-pattern and the
+   quantum-pattern variants, every n >= 1, every placement, every memory / pattern state. *)
 From Coq Require Import Reals Lra List Bool Arith Lia NArith ZArith.
 From Coquelicot Require Import Complex.
-From QV Require Import Sem Mat2 Toff2 Chain Pqm PqmModel.
+From QV Require Import Sem Mat2 Toff2 Chain Pqm PqmModel PqmQuantum.
 Import ListNotations.
 Open Scope R_scope.
 
@@ -47,6 +47,29 @@ Proof.
   pose proof (sin2_cos2 (a * d)). nra.
 Qed.
 Print Assumptions C17_probabilities.
+
+
+(* quantum pattern register pq: on the branch where the pattern register reads p (the pattern bits of the assignment b),
+   the amplitudes follow the same law with d = Hamming distance between the memory bits and p; amplitudes of different
+   pattern branches never mix, so the pattern register's distribution is unchanged too *)
+Theorem C17_pqm_quantum : forall (pq mq : nat -> nat) (xq n : nat),
+  (forall k, pq k <> xq) -> (forall k k', pq k <> mq k') ->
+  (forall i j, mq i = mq j -> i = j) -> (forall i, mq i <> xq) -> (0 < n)%nat ->
+  forall (psi : state) (b : asg),
+  (forall b', psi (upd b' xq true) = 0) ->
+  let pat := pat0 n (fun k => get b (pq k)) in
+  let a := PI / (2 * INR n) in
+  let d := INR (dist mq (fun k => nth k pat false) n b) in
+  prun (pqm_gates_q n pq mq xq) psi (upd b xq false) = (RtoC (cos (a * d)) * psi (upd b xq false))%C /\
+  prun (pqm_gates_q n pq mq xq) psi (upd b xq true) = ((0, - sin (a * d))%R * psi (upd b xq false))%C.
+Proof.
+  intros pq mq xq n Hpx Hpm Hinj Hmx Hn psi b Hpsi pat a d.
+  assert (On : forall v, onpat pq n (fun k => get b (pq k)) (upd b xq v)).
+  { intros v k Hk. now rewrite get_upd_other by apply Hpx. }
+  rewrite !(quantum_as_classical pq mq xq n Hpx Hpm (fun k => get b (pq k)) psi _ (On _)).
+  exact (C17_pqm_amplitudes mq xq pat Hinj Hmx n psi b Hn Hpsi).
+Qed.
+Print Assumptions C17_pqm_quantum.
 
 (* non-vacuity: memory qubits 0..n-1, auxiliary n, satisfy the placement hypotheses *)
 Example ex_placement : (forall i j : nat, i = j -> i = j) /\ (forall n i : nat, (i < n)%nat -> i <> n).
